@@ -25,7 +25,7 @@ ASSUMPTIONS = [
     "title problems are attributed to F22 only by its structural trigger (formatted title empty, a "
     "constant/keyword, or a name of the generated module's own vocabulary)",
 ]
-REQUIRED_COUNTERS = ["auto_titles.usable", "pool.half_dunder", 
+REQUIRED_COUNTERS = ["dsl_routes.refused", "dsl_routes.usable", "auto_titles.usable", "pool.half_dunder", 
     "names.mapped", "e2e.instances", "e2e.properties_parsed_twice", "e2e.generated_module", "siblings.sets", "siblings.distinct_ok", "titles.modules_executed",
     "titles.mapped", "titles.distinct_ok", "titles.sets_without_f22_trigger", "cat.Lu", "cat.Ll", "cat.Nd", "cat.No", "cat.Zs", "cat.Po", "cat.Sm", "cat.Mn",
     "cat.Cc", "cat.Cs", "cat.Co", "cat.Cn", "cat.Lo", "cat.Lm", "pool.keywords", "pool.dunder",
@@ -264,6 +264,46 @@ def e2e_name(ctx, sut, name, pool, variant=0):
                     finding=finding)
 
 
+def inline_route(ctx, sut, name):
+    """The DSL's other ways of declaring a property - `Object.inline`, a class body, assignment into
+    `Model.properties` - take the attribute name from the caller: a keyword or reserved attribute is refused
+    there (SchemaDefinitionError); it must never end up as the attribute of a model."""
+    for route in ("inline", "class_body"):
+        ctx.evaluation()
+        ctx.count("dsl_routes.tried")
+        try:
+            if route == "inline":
+                cls = sut.Object.inline("Inl", properties={name: sut.Property(sut.String())})
+            else:
+                from statham.schema.elements.meta import ObjectClassDict  # pylint: disable=import-outside-toplevel
+
+                body = ObjectClassDict()
+                body[name] = sut.Property(sut.String())
+                cls = sut.ObjectMeta("Body", (sut.Object,), body)
+        except sut.SchemaDefinitionError:
+            ctx.count("dsl_routes.refused")
+            continue
+        except BaseException as exc:  # pylint: disable=broad-except
+            ctx.witness("dsl_route_raised", {"name": name, "route": route}, f"{type(exc).__name__}: {exc!r}"[:300])
+            continue
+        problems = name_problems(sut, name, name) if name in (cls.properties or {}) else ["property not declared"]
+        outcome, inst, exc = sut.call(cls, {name: "v"})
+        if outcome != "ok":
+            problems.append(f"instantiating raised {outcome}: {exc!r}"[:200])
+        else:
+            try:
+                if inst[name] != "v":
+                    problems.append("member not readable by item")
+                _ = repr(inst)
+            except BaseException as err:  # pylint: disable=broad-except
+                problems.append(f"instance unusable: {type(err).__name__}: {err!r}"[:200])
+        if problems:
+            ctx.witness("unusable_property", {"name": name, "route": route, "pool": "dsl_routes"},
+                        f"`{route}` accepted the attribute name {name!r}: " + "; ".join(problems))
+        else:
+            ctx.count("dsl_routes.usable")
+
+
 def _share(schema):
     """Deep copy of {'properties': {'first': X, 'second': X}} that keeps X one shared dict object."""
     import copy as _copy  # pylint: disable=import-outside-toplevel
@@ -297,6 +337,9 @@ def pools(ctx, sut):
     for idx, name in enumerate(dunder):
         if idx % ctx.nshards == ctx.shard:
             e2e_name(ctx, sut, name, "dunder")
+    for idx, name in enumerate(kws + dunder + ["_dict", "plain", "x1", "é", "__private"]):
+        if idx % ctx.nshards == ctx.shard:
+            inline_route(ctx, sut, name)
     for idx, name in enumerate(special):
         if idx % ctx.nshards == ctx.shard:
             for variant in range(4):
